@@ -56,6 +56,9 @@ UnorderedClauses(e) ==
   << <<"equalsAggregate", e.obs.px = AggregateAll(e.case.chunks, e.case.aggs)>>,
      <<"neverSilentlyDifferent", fits>>,            \* an aggregate that does not fit the value dtype must be an error
      <<"noTempLeft", Len(e.obs.temp_after) = 0>>,
+     \* C01 through this path: the assembly name and the metadata given at creation come back unchanged
+     <<"assemblyUnchanged", e.obs.assembly = (IF "assembly" \in DOMAIN e.case /\ e.case.assembly # "" THEN e.case.assembly ELSE "unknown")>>,
+     <<"metaUnchanged", e.obs.meta_tag = (IF "meta_tag" \in DOMAIN e.case THEN e.case.meta_tag ELSE 0)>>,
      <<"drift:passStructure", e.obs.two_pass = TwoPass(Len(e.case.chunks), e.case.max_merge)>> >>
   \o CSRClauses(e.obs.raw)
 
